@@ -380,6 +380,8 @@ func c20L2(c *Ctx, li *LockInfo, guarded map[*types.Var]*types.Var) {
 			a.n++
 			if !li.must[i][mu] {
 				a.bad = append(a.bad, fmt.Sprintf("%s (held: %s)", p.pos(fa.Pos()), li.must[i].names()))
+			} else if li.shared[i][mu] && !readOnlyAccess(fa) {
+				a.bad = append(a.bad, fmt.Sprintf("%s (written while %s may be held for reading only: RLock admits other holders)", p.pos(fa.Pos()), lockName(mu)))
 			}
 		})
 	}
@@ -388,6 +390,43 @@ func c20L2(c *Ctx, li *LockInfo, guarded map[*types.Var]*types.Var) {
 		c.check(len(a.bad) == 0, "C20.L2", k, a.pos, fmt.Sprintf("%d accesses, all with the owner's lock held", a.n),
 			"accessed without the protecting mutex certainly held at "+strings.Join(a.bad, ", ")+": a data race with the writers that do hold it")
 	}
+}
+
+// readOnlyAccess: the field address is only loaded from, and the loaded value
+// (a map or slice header) is not updated in place. Anything else - a store, an
+// address that escapes into a call, a map update or delete, an element store -
+// counts as a write.
+func readOnlyAccess(fa *ssa.FieldAddr) bool {
+	for _, r := range *fa.Referrers() {
+		switch r := r.(type) {
+		case *ssa.DebugRef:
+		case *ssa.UnOp:
+			if r.Op != token.MUL {
+				return false
+			}
+			for _, u := range *r.Referrers() {
+				switch u := u.(type) {
+				case *ssa.MapUpdate:
+					if u.Map == ssa.Value(r) {
+						return false
+					}
+				case *ssa.IndexAddr:
+					for _, w := range *u.Referrers() {
+						if st, ok := w.(*ssa.Store); ok && st.Addr == ssa.Value(u) {
+							return false
+						}
+					}
+				case *ssa.Call:
+					if b, ok := u.Call.Value.(*ssa.Builtin); ok && (b.Name() == "delete" || b.Name() == "clear") {
+						return false
+					}
+				}
+			}
+		default:
+			return false
+		}
+	}
+	return true
 }
 
 func isCtorLike(f *ssa.Function) bool {
